@@ -1141,6 +1141,165 @@ def state_section(ck):
     ck.section("state", sequences=nseq, exhaustive_len=maxlen, random_per_class=nrand)
 
 
+# ------------------------------------------------------------------ fixed effects: sums over any number of sessions / summands
+def _ccon(e, V, d, vox=0):
+    e, V = np.asarray(e, dtype=float), np.asarray(V, dtype=float)
+    dim = e.shape[0]
+    return "(mkC %s %s %s)" % (cql([frac(float(e[i, vox])) for i in range(dim)]),
+                               cmatq([[frac(float(V[i, j, vox])) for j in range(dim)] for i in range(dim)]), cq(frac(float(d))))
+
+
+def fixed_effects_section(ck):
+    """c1 + c2 + ... + ck for k in {1,2,3,5} (both Contrast classes, every grouping) and FMRILinearModel.contrast over
+    1, 2, 3, 5 sessions with and without null session contrasts: effect / variance / dof are the sums over ALL
+    (non-null) summands, and stat / p / z are those of a fresh contrast built from the sums."""
+    import nibabel as nib
+    import nipy.modalities.fmri.glm as fg
+    import nipy.labs.glm.glm as lg
+    rng = ck.rng("fixed-effects")
+    build_ok = ck.build is not None and ck.build.ok
+    terms, meta = [], []
+    impls = [("fmri", lambda e, V, d, t: mk_fmri(fg, e, V, d, t), ("stat", "p_value", "z_score")),
+             ("labs", lambda e, V, d, t: mk_labs(lg, e, V, d, t), ("stat", "pvalue", "zscore"))]
+    KS = [1, 2, 3, 5]
+
+    def kcls(k):
+        return "k=%d" % k if k <= 2 else "k>=3"
+    # ---- (a) sums of k Contrast objects, exact on dyadic data
+    NA = ck.n(120, 1200)
+    for it in range(NA):
+        k = KS[it % 4]
+        dim = int(rng.integers(1, 4))
+        typ = "t" if dim == 1 and rng.random() < 0.5 else ("F" if dim == 1 or rng.random() < 0.6 else "tmin-conjunction")
+        n = int(rng.integers(1, 4))
+        parts = []
+        for j in range(k):
+            null = k > 1 and rng.random() < 0.2               # a summand with zero effect and variance
+            e = np.zeros((dim, n)) if null else rng.integers(-2 ** 12, 2 ** 12, (dim, n)) / 2.0 ** int(rng.integers(0, 8))
+            A = rng.integers(-8, 9, (dim, dim + 1, n)) / 4.0
+            V = np.zeros((dim, dim, n)) if null else np.einsum("ikn,jkn->ijn", A, A) + np.eye(dim)[:, :, None] / 4.0
+            parts.append((e, V, float(rng.choice(DOFS[:4]))))
+        es, Vs, ds = sum(p_[0] for p_ in parts), sum(p_[1] for p_ in parts), sum(p_[2] for p_ in parts)
+        for name, mk, meths in impls:
+            objs = [mk(e, V, d, typ) for e, V, d in parts]
+            groupings = {"left": None, "right": None, "tree": None}
+            acc = objs[0]
+            for o in objs[1:]:
+                acc = acc + o
+            groupings["left"] = acc
+            acc = objs[-1]
+            for o in objs[-2::-1]:
+                acc = o + acc
+            groupings["right"] = acc
+            lvl = list(objs)
+            while len(lvl) > 1:
+                lvl = [lvl[i] + lvl[i + 1] if i + 1 < len(lvl) else lvl[i] for i in range(0, len(lvl), 2)]
+            groupings["tree"] = lvl[0]
+            ck.count(("csum", name, it), nontrivial=k > 1, bucket="fixed-effects:contrast-sum:%s:k=%d" % (name, k))
+            fresh = mk(es, Vs, ds, typ)
+            ref = [np.ravel(np.array(getattr(fresh, m)(), dtype=float)) for m in meths]
+            for gname, res in groupings.items():
+                rep = {"impl": name, "type": typ, "dim": dim, "k": k, "grouping": gname,
+                       "effects": [p_[0].tolist() for p_ in parts], "variances": [p_[1].tolist() for p_ in parts], "dofs": [p_[2] for p_ in parts],
+                       "result": {"effect": np.asarray(res.effect).tolist(), "variance": np.asarray(res.variance).tolist(), "dof": res.dof}}
+                for fld, got, want in (("effect", res.effect, es), ("variance", res.variance, Vs), ("dof", res.dof, ds)):
+                    if not np.array_equal(np.asarray(got, dtype=float).reshape(np.shape(want)), want):
+                        ck.fail("fixed-effects/contrast-sum/%s/%s/%s" % (name, fld, kcls(k)),
+                                "%s: %s of the sum of %d contrasts (%s grouping) is not the sum of the %d %ss" % (name, fld, k, gname, k, fld), rep)
+                got = [np.ravel(np.array(getattr(res, m)(), dtype=float)) for m in meths]
+                if not all(x.shape == y.shape and np.allclose(x, y, rtol=1e-12, atol=1e-300) for x, y in zip(got, ref)):
+                    ck.fail("fixed-effects/contrast-sum/%s/stat-p-z/%s" % (name, kcls(k)),
+                            "%s: stat/p/z of the sum of %d contrasts differ from those of a fresh contrast with the summed effect/variance/dof" % (name, k), rep)
+                if gname == "left":
+                    terms.append("c_eqb (c_sum %s %s) %s" % (_ccon(*parts[0]), clist([_ccon(*p_) for p_ in parts[1:]]), _ccon(res.effect, np.asarray(res.variance).reshape(dim, dim, -1), res.dof)))
+                    meta.append(("fixed-effects/model-vs-impl/contrast-sum/%s/%s" % (name, kcls(k)), "model c_sum and %s disagree on the sum of %d contrasts" % (name, k), rep))
+
+    # ---- (b) FMRILinearModel.contrast over K sessions
+    NB = ck.n(96, 600)
+    shape = (2, 2, 1)
+    nvox = 4
+    for it in range(NB):
+        K = KS[it % 4]
+        p = 3
+        typ = [None, "t", "F", "tmin-conjunction"][(it // 4) % 4]
+        imgs, Xs, Ys = [], [], []
+        for sidx in range(K):
+            T = int(rng.integers(8, 13))
+            while True:
+                X = rng.integers(-3, 4, (T, p)).astype(float)
+                X[:, 0] = 1.0
+                if np.linalg.matrix_rank(X) == p:
+                    break
+            Y = rng.integers(-20, 21, shape + (T,)).astype(float)
+            imgs.append(nib.Nifti1Image(Y, np.eye(4)))
+            Xs.append(X)
+            Ys.append(Y.reshape(-1, T).T.copy())       # (T, nvox), C order of the 3 spatial axes = mask order
+        nullpat = [False] * K
+        if K > 1 and it % 3 == 1:                        # some (not all) sessions have a null contrast
+            for j in rng.choice(K, size=int(rng.integers(1, K)), replace=False):
+                nullpat[int(j)] = True
+        cons = []
+        for sidx in range(K):
+            if typ in (None, "t"):
+                con = rng.integers(-2, 3, p).astype(float)
+                while not np.any(con):
+                    con = rng.integers(-2, 3, p).astype(float)
+            else:
+                while True:
+                    con = rng.integers(-2, 3, (2, p)).astype(float)
+                    if np.linalg.matrix_rank(con) == 2:
+                        break
+            cons.append(np.zeros_like(con) if nullpat[sidx] else con)
+        ncls = "with-null-sessions" if any(nullpat) else "no-null-session"
+        scls = "sessions=%d" % K if K <= 2 else "sessions>=3"
+        ck.count(("fmrilm", it), nontrivial=K > 1, bucket="fixed-effects:FMRILinearModel:%s:%s:%s" % (scls if K <= 2 else "sessions=%d" % K, ncls, typ))
+        rep = {"sessions": K, "null_sessions": nullpat, "contrast_type": typ, "contrasts": [c.tolist() for c in cons],
+               "designs": [X.tolist() for X in Xs], "data": [Y.tolist() for Y in Ys], "volume_shape": list(shape)}
+        try:
+            mdl = fg.FMRILinearModel(imgs, Xs, mask=None)
+            mdl.fit(do_scaling=False, model="ols")
+            outs = mdl.contrast(cons, contrast_type=typ, output_z=True, output_stat=True, output_effects=True, output_variance=True)
+        except Exception as ex:  # noqa
+            ck.fail("fixed-effects/FMRILinearModel/raises/%s/%s" % (scls, ncls), "FMRILinearModel.contrast raised %r" % ex, rep)
+            continue
+        # reference: every non-null session estimated on its own, fields summed as arrays, statistics from a fresh Contrast
+        sess = []
+        for X, Y, con, isnull in zip(Xs, Ys, cons, nullpat):
+            if isnull:
+                sess.append(None)
+                continue
+            g = fg.GeneralLinearModel(X)
+            g.fit(Y, "ols")
+            ci = g.contrast(con, contrast_type=typ)
+            sess.append((np.array(ci.effect, dtype=float), np.array(ci.variance, dtype=float), float(ci.dof), ci.contrast_type))
+        live = [s_ for s_ in sess if s_ is not None]
+        es, Vs, ds = sum(s_[0] for s_ in live), sum(s_[1] for s_ in live), sum(s_[2] for s_ in live)
+        dim = es.shape[0]
+        fresh = fg.Contrast(es.copy(), Vs.copy(), dof=ds, contrast_type=live[0][3])
+        zref, sref = np.ravel(fresh.z_score()), np.ravel(fresh.stat())
+        got = [np.asarray(o.get_fdata()) for o in outs]
+        gz, gs = got[0].reshape(nvox), got[1].reshape(nvox)
+        ge = got[2].reshape(nvox, dim).T
+        gv = got[3].reshape(nvox, dim, dim).transpose(2, 1, 0)
+        rep = dict(rep, got={"z": gz.tolist(), "stat": gs.tolist(), "effect": ge.tolist(), "variance": gv.tolist()},
+                   expected={"z": zref.tolist(), "stat": sref.tolist(), "effect": es.tolist(), "variance": Vs.tolist(), "dof": ds})
+        for fld, g_, w_ in (("effect", ge, es), ("variance", gv, Vs), ("stat", gs, sref), ("z", gz, zref)):
+            if not np.allclose(g_, w_, rtol=1e-10, atol=1e-12):
+                ck.fail("fixed-effects/FMRILinearModel/%s/%s/%s" % (fld, scls, ncls),
+                        "FMRILinearModel.contrast over %d sessions (%s): the %s map is not that of the sum of all non-null session contrasts" % (K, ncls, fld), rep)
+        sl = clist(["None" if s_ is None else "(Some %s)" % _ccon(s_[0], s_[1], s_[2]) for s_ in sess])
+        terms.append("oc_close %s (fixed_effects %s) (Some %s)" % (cq(Fraction(1, 10 ** 10)), sl, _ccon(ge, gv, ds)))
+        meta.append(("fixed-effects/model-vs-impl/FMRILinearModel/%s/%s" % (scls, ncls),
+                     "model fixed_effects (sum of all non-null sessions) and FMRILinearModel.contrast disagree on effect/variance (voxel 0)", rep))
+    if build_ok:
+        res = ck.coq_bools(HDRC, terms, name="fixedfx")
+        ck.cov["traces_validated_against_impl"] += len(res)
+        for ok, (sig, what, rep) in zip(res, meta):
+            if not ok:
+                ck.fail(sig, what, rep)
+    ck.section("fixed_effects", contrast_sums=NA, fmri_linear_models=NB, summands=KS, model_terms=len(terms))
+
+
 def run(ck):
     ck.cov["rule"] = ("state machine: every stat/p_value/z_score call sequence of length <= 3 (4) over two baselines + random sequences with "
                       "three baselines, scalar multiplication and addition, for both Contrast classes x {t, F1, F2, tmin}; "
@@ -1159,4 +1318,6 @@ def run(ck):
     t3 = time.time()
     state_section(ck)
     t4 = time.time()
-    ck.section("timing", build_and_overlay_s=round(t1 - t0, 1), fdr_s=round(t2 - t1, 1), contrast_s=round(t3 - t2, 1), state_s=round(t4 - t3, 1))
+    fixed_effects_section(ck)
+    t5 = time.time()
+    ck.section("timing", build_and_overlay_s=round(t1 - t0, 1), fdr_s=round(t2 - t1, 1), contrast_s=round(t3 - t2, 1), state_s=round(t4 - t3, 1), fixed_effects_s=round(t5 - t4, 1))
